@@ -102,6 +102,11 @@ func (p *Processor) handleCleanup(ctx context.Context) {
 			} else {
 				gs = p.gs
 			}
+			if gs == nil {
+				// No guardian set known yet (the entry was injected before the first set
+				// arrived): there is nothing to count misses against.
+				break
+			}
 
 			hasSigs := len(s.signatures)
 			wantSigs := CalculateQuorum(len(gs.Keys))
